@@ -167,8 +167,14 @@ func findFunctionCallViolation(
 	switch fun := call.Fun.(type) {
 	case *ast.Ident:
 		// Direct function call: CreateMockData()
-		funcName := fun.Name
-		if ctx.testOnlyFuncs.Match(*ctx.currentPkgPath, funcName, funcName) {
+		// Resolve the identifier: a variable, parameter or closure that merely
+		// shares its name with a @testonly function is not that function
+		fn, ok := ctx.pass.TypesInfo.Uses[fun].(*types.Func)
+		if !ok || fn.Pkg() == nil {
+			return nil
+		}
+		funcName := fn.Name()
+		if ctx.testOnlyFuncs.Match(fn.Pkg().Path(), funcName, funcName) {
 			return &TestOnlyViolation{
 				Pos:         call.Pos(),
 				TestOnlyObj: funcName,
